@@ -25,10 +25,18 @@ ENTRIES = ["pkt.read", "pkt.setpayload", "pkt.setpayloadfn", "pkt.setafc", "af.g
            "psi.accessors", "psi.pat", "psi.pmt", "psi.done", "psi.crc", "psi.filter", "psi.readpat", "psi.readpmt",
            "pes.new", "ebp.read", "scte.new", "pkt.sync", "pkt.acc", "pkt.writer"]
 # entries that take the integer argument and the values worth trying
+# af.setters: n = 40*shape + 20*flag + op; shapes 1..5 (data length derived from the packet: L, L-1, L+1, room, 0) only matter
+# for op 7 (SetTransportPrivateData) and op 8 (SetAdaptationFieldExtension)
+AF_SHAPED = [40 * sh + 20 * fl + op for sh in range(1, 6) for fl in (0, 1) for op in (7, 8)]
+# psi.filter: 10000+k = PID list derived from the packets ({0}, {pid0}, {0,pid0}, {}, first / last / all own stream PIDs, absent)
+FILTER_SHAPED = list(range(10000, 10008))
 NARG = {"pkt.read": [0, 15, 255], "pkt.setpayload": [0, 1, 3, 100, 183, 184, 200], "pkt.setpayloadfn": [0, 10, 184, 200],
         "pkt.setafc": [0, 1, 2, 3], "af.getters": [0, 1], "af.setters": list(range(40)),
         "psi.accessors": [0, 13, 1021], "psi.pmt": [101, 256], "psi.filter": [101, 256, 0], "psi.readpmt": [100, 0x64],
         "pkt.sync": [0, 100], "pkt.writer": [0, 1, 2]}
+# integer arguments that select an argument SHAPE DERIVED FROM THE INPUT (goexec/total.go tot* helpers = Exec/TotExec.v):
+# two of them per input on top of the fixed ones (all of them on seeds and on the hostile adaptation-field grid)
+NSHAPED = {"af.setters": AF_SHAPED, "psi.filter": FILTER_SHAPED, "pkt.setpayload": [256, 257, 258], "psi.readpmt": [-1]}
 
 RULE = ("every entry point (%d ops of goexec/total.go, each calling the decoder and then every getter / printer / "
         "re-encoder of a successful result; the same op over the models in Exec/TotExec.v) on mutations of %d valid vectors: "
@@ -37,6 +45,8 @@ RULE = ("every entry point (%d ops of goexec/total.go, each calling the decoder 
         "well-formed PAT / PMT / splice_info_section / EBP / PES header / adaptation field (built by the Coq Spec serialisers) "
         "set to 0, max, +-1, x2 and to the values that end its content at / one before / one past every enclosing end, the "
         "swallowed bytes refilled with descriptor-like shapes, and PMT sections split at every payload offset over two packets; "
+        "the integer argument also selects argument shapes derived from the input (setter data of exactly / one off the advertised inner length, "
+        "payload of exactly / one off the free space, PID lists made of PID 0 / the packet's PID / the PMT's own PIDs); "
         "non-trivial = distinct (entry, input) pairs that are not an unmutated seed.  Separately: the cli binary on ~320 "
         "mutated transport-stream files (coverage.extra)"
         % (len(ENTRIES), 15))
@@ -123,6 +133,11 @@ def gen(rng, tier):
                 ns = args
             else:
                 ns = [args[rng.randrange(len(args))], args[rng.randrange(len(args))]]
+            sh = NSHAPED.get(ent, [])
+            if len(sh) <= 1 or kind in ("af-hostile", "seed"):
+                ns = list(ns) + sh
+            else:
+                ns = list(ns) + [sh[rng.randrange(len(sh))], sh[rng.randrange(len(sh))]]
             for n in ns:
                 line = "tot.%s %s" % (ent, hx(b)) + ("" if n is None else " %d" % n)
                 if line in seen:
@@ -198,6 +213,9 @@ def structured_cases(rng, tier, out, seen):
         add("psi.accessors", pay, 13, kind)
         pk = b"".join(T.packets(PMT_PID, pay))
         add("psi.filter", pk, pid_arg, kind); add("psi.readpmt", pk, PMT_PID, kind); add("pkt.acc", pk, None, kind)
+        add("psi.readpmt", pk, -1, kind)
+        for n in (FILTER_SHAPED if kind == "seed" else (10002, 10006, FILTER_SHAPED[rng.randrange(8)])):
+            add("psi.filter", pk, n, kind)
 
     for pay in w["pmt"]:
         fields = T.walk_pmt(pay, 1)
@@ -211,8 +229,22 @@ def structured_cases(rng, tier, out, seen):
             rest = pay[k + 184:]
             if rest:
                 pk += b"".join(T.packets(PMT_PID, rest, cc=2, pusi=False))
-            for ent, n in (("psi.readpmt", PMT_PID), ("pkt.acc", None), ("psi.filter", 101)):
+            for ent, n in (("psi.readpmt", PMT_PID), ("pkt.acc", None), ("psi.filter", 101), ("psi.filter", 10002), ("psi.filter", 10006)):
                 add(ent, pk, n, "split")
+    # a payload whose first section byte is stuffing (NewPMT inspects nothing) followed by bytes that announce a section:
+    # every announced section_length class, in one and in two packets, with every derived PID list
+    for sl in (0, 12, 13, 14, 100, 179, 180, 181, 183, 184, 364, 365, 366, 500, 1021, 1023):
+        for pfx in (b"\x00\xff", b"\x01\x00\xff", b"\x00\xff\xff"):
+            for fill in (0xFF, 0x00, None):
+                for npk in (1, 2):
+                    body = pfx + bytes([0xB0 | (sl >> 8), sl & 255])
+                    n = 184 * npk - len(body)
+                    body += bytes(rng.randrange(256) for _ in range(n)) if fill is None else bytes([fill]) * n
+                    pk = b"".join(T.packets(PMT_PID, body))
+                    for k in FILTER_SHAPED:
+                        add("psi.filter", pk, k, "stuffing-then-section")
+                    add("psi.filter", pk, 101, "stuffing-then-section"); add("psi.readpmt", pk, -1, "stuffing-then-section")
+                    add("psi.pmt", body, 101, "stuffing-then-section"); add("pkt.acc", pk, None, "stuffing-then-section")
     for pay in w["pat"]:
         for kind, m in [("seed", pay)] + list(T.length_mutations(pay, T.walk_pat(pay, 1), rng, nfill=1)):
             add("psi.pat", m, None, kind); add("psi.accessors", m, 0, kind)
@@ -243,6 +275,29 @@ def structured_cases(rng, tier, out, seen):
             add("pkt.setpayload", m, 100, kind); add("pkt.setafc", m, 3, kind)
             for op in (range(20, 40) if kind.split(":")[0].startswith("af.") or kind == "seed" else (25, 27, 28)):
                 add("af.setters", m, op, kind)
+            for op in AF_SHAPED:
+                add("af.setters", m, op, kind)
+            for n in (256, 257, 258):
+                add("pkt.setpayload", m, n, kind)
+    # an adaptation field whose transport_private_data / extension length byte is overlong (150..255), under every flag
+    # combination that moves the field, with every data-length selector of the two variable-length setters
+    for flags, ext in ((0x02, False), (0x12, False), (0x1E, False), (0x01, True), (0x03, True), (0x1F, True), (0x19, True)):
+        pos = 6 + (6 if flags & 0x10 else 0) + (6 if flags & 0x08 else 0) + (1 if flags & 0x04 else 0)
+        for afl in (183, 100, pos - 4):
+            for v in list(range(150, 256, 1 if not quick else 7)) + [182, 183, 184, 255, 188 - pos - 1, 188 - pos - 2, 188 - pos]:
+                pkt = bytearray([0x47, 0x00, 0x65, 0x30 if afl < 183 else 0x20, afl, flags]) + bytearray(b"\x00" * 182)
+                q = pos
+                if ext and flags & 0x02:
+                    pkt[q] = 2; q += 3           # a small private-data field in front of the extension
+                pkt[q] = v & 255
+                m = bytes(pkt)
+                for op in AF_SHAPED:
+                    if (op % 20 == 8) == ext:
+                        add("af.setters", m, op, "overlong-inner-length")
+                add("af.setters", m, 27 if not ext else 28, "overlong-inner-length")
+                add("af.getters", m, 1, "overlong-inner-length"); add("affn", m, None, "overlong-inner-length")
+                for n in (256, 257, 258, 100):
+                    add("pkt.setpayload", m, n, "overlong-inner-length")
 
 
 def oracle(c, real, model):
